@@ -92,7 +92,7 @@ SetArgs(g, form, kinds) ==
     /\ part = "resolve" /\ stage = "args" /\ g \in (-1)..(cfg.n + 1)
     /\ form \in {"list", "dict", "scalar"}
     /\ Len(kinds) = (IF g = -1 THEN 0 ELSE g)
-    /\ (form = "dict" => g = cfg.n) /\ (form = "scalar" => (g = 1 /\ cfg.n = 1 /\ kinds[1] # "name"))
+    /\ (form = "dict" => g = cfg.n) /\ (form = "scalar" => (g = 1 /\ cfg.n = 1 /\ cfg.d = 0 /\ kinds[1] # "name"))
     /\ cfg' = [n |-> cfg.n, d |-> cfg.d, g |-> g, form |-> form, kinds |-> kinds]
     /\ stage' = "keys" /\ UNCHANGED <<part, stack, out>>
 
@@ -198,44 +198,57 @@ Build(op, a, b) ==
 
 EnvCount == Len(Envs)
 ValuesOf(t) == [e \in 1..EnvCount |-> EvalQR(ToTerm(t), Envs[e])]
-DefinedEverywhere(t) == \A e \in 1..EnvCount : EvalQR(ToTerm(t), Envs[e]).st # "undef"
+(* values are carried with the stack entry and combined operation by operation (the            *)
+(* compositional reading); at the end they must equal the value of the whole written term      *)
+LeafValues(t) == [e \in 1..EnvCount |-> IF t.k \in {"C", "i"} THEN RQ(<<t.v, 1>>) ELSE RQ(Envs[e][t.name])]
+NegR(x) == IF IsRQ(x) THEN RQ(QNeg(x.q)) ELSE x
+ApplyOp(op, x, y) ==
+    CASE op = "add" -> Lift2(SQAdd, x, y)
+      [] op = "sub" -> Lift2(SQAdd, x, NegR(y))
+      [] op = "mul" -> Lift2(SQMul, x, y)
+      [] op = "div" -> RDivR(x, y)
+      [] op = "pow" -> Lift2(RPow, x, y)
 (* exponents stay small exact rationals (integers or halves) so that every value is a real     *)
 (* number of moderate size under every backend                                                 *)
-SmallExponent(t) == \A e \in 1..EnvCount :
-    LET r == EvalQR(ToTerm(t), Envs[e])
-    IN  r.st = "q" /\ r.q[2] \in {1, 2} /\ Abs(r.q[1]) <= 3 * r.q[2]
+SmallExponentV(v) == \A e \in 1..EnvCount : v[e].st = "q" /\ v[e].q[2] \in {1, 2} /\ Abs(v[e].q[1]) <= 3 * v[e].q[2]
 
 NLeaves == IF "nleaves" \in DOMAIN cfg THEN cfg.nleaves ELSE 0
-Push(w, b) ==
-    /\ stack' = Append(stack, [w |-> w, b |-> b])
-    /\ cfg' = [nleaves |-> NLeaves + 1] /\ stage' = "building" /\ UNCHANGED <<part, out>>
 
 Leaf(t) ==
     /\ part = "algebra" /\ stage \in {"start", "building"} /\ t.k \in {"C", "S", "i", "s"}
-    /\ Push(t, t)
+    /\ (t.k \in {"S", "s"} => \A e \in 1..EnvCount : t.name \in DOMAIN Envs[e])
+    /\ stack' = Append(stack, [w |-> t, b |-> t, v |-> LeafValues(t)])
+    /\ cfg' = [nleaves |-> NLeaves + 1] /\ stage' = "building" /\ UNCHANGED <<part, out>>
 
 Op(op) ==
     /\ part = "algebra" /\ stage = "building" /\ Len(stack) >= 2
     /\ op \in {"add", "sub", "mul", "div", "pow"}
     /\ LET a == stack[Len(stack) - 1]
            b == stack[Len(stack)]
-           w == Bin(op, a.w, b.w)
+           nv == [e \in 1..EnvCount |-> ApplyOp(op, a.v[e], b.v[e])]
        IN  /\ ~(IsRaw(a.w) /\ IsRaw(b.w))          \* two plain Python operands are not an Expr operation
-           /\ DefinedEverywhere(w)
-           /\ (op = "pow" => SmallExponent(b.w))
-           /\ stack' = Append(SubSeq(stack, 1, Len(stack) - 2), [w |-> w, b |-> Build(op, a.b, b.b)])
+           /\ (op = "pow" => SmallExponentV(b.v))
+           \* a value TLC does not compute exactly ("irr") could be zero or negative: divisors, and
+           \* bases of negative or fractional powers, must be exact
+           /\ (op = "div" => \A e \in 1..EnvCount : b.v[e].st = "q")
+           /\ (op = "pow" => \A e \in 1..EnvCount :
+                    (b.v[e].q[1] < 0 \/ b.v[e].q[2] # 1) => a.v[e].st = "q")
+           /\ \A e \in 1..EnvCount : nv[e].st # "undef"
+           /\ stack' = Append(SubSeq(stack, 1, Len(stack) - 2),
+                              [w |-> Bin(op, a.w, b.w), b |-> Build(op, a.b, b.b), v |-> nv])
     /\ UNCHANGED <<part, stage, cfg, out>>
 
 Negate ==
     /\ part = "algebra" /\ stage = "building" /\ Len(stack) >= 1
     /\ LET a == stack[Len(stack)]
        IN  /\ ~IsRaw(a.w) /\ (a.w.k = "neg" => a.w.a.k # "neg")                   \* at most -(-x)
-           /\ stack' = Append(SubSeq(stack, 1, Len(stack) - 1), [w |-> NegT(a.w), b |-> BuildNeg(a.b)])
+           /\ stack' = Append(SubSeq(stack, 1, Len(stack) - 1),
+                              [w |-> NegT(a.w), b |-> BuildNeg(a.b), v |-> [e \in 1..EnvCount |-> NegR(a.v[e])]])
     /\ UNCHANGED <<part, stage, cfg, out>>
 
 FinishTree ==
     /\ part = "algebra" /\ stage = "building" /\ Len(stack) = 1 /\ ~IsRaw(stack[1].w)
-    /\ out' = ValuesOf(stack[1].w) /\ stage' = "done" /\ UNCHANGED <<part, cfg, stack>>
+    /\ out' = stack[1].v /\ stage' = "done" /\ UNCHANGED <<part, cfg, stack>>
 
 AllLeaves == { LeafC(n) : n \in ConstLeaves } \cup { RawI(n) : n \in RawInts }
              \cup { LeafS(s) : s \in SymLeaves } \cup { RawS(s) : s \in RawStrs }
@@ -247,13 +260,16 @@ GenNeg  == AllowNeg /\ Negate /\ Depth(stack[Len(stack)].w) < MaxDepth
 (* the overloads may restructure, never change the value: at every stage every entry of the   *)
 (* stack denotes, at every sample point, the value of the expression as written               *)
 ShortCircuitsPreserveValue ==
-    part = "algebra" =>
-        \A i \in 1..Len(stack) : \A e \in 1..EnvCount :
-            LET vw == EvalQR(ToTerm(stack[i].w), Envs[e])
-                vb == EvalQR(ToTerm(stack[i].b), Envs[e])
-            IN  (vw.st = "q" /\ vb.st = "q") => vw.q = vb.q
+    (part = "algebra" /\ stack # <<>>) =>
+        \* entries below the top were the top of an earlier state: checking the top is inductive
+        LET top == stack[Len(stack)] IN
+        \A e \in 1..EnvCount :
+            LET vb == EvalQR(ToTerm(top.b), Envs[e])
+            IN  (top.v[e].st = "q" /\ vb.st = "q") => top.v[e].q = vb.q
+(* the value combined operation by operation is the value of the whole written term *)
+CompositionalIsDenotational == (part = "algebra" /\ Done) => out = ValuesOf(stack[1].w)
 (* the built object is an expression unless the entry is a single raw operand *)
-BuiltIsExpr == part = "algebra" => \A i \in 1..Len(stack) : IsRaw(stack[i].b) => IsRaw(stack[i].w)
+BuiltIsExpr == (part = "algebra" /\ stack # <<>>) => (IsRaw(stack[Len(stack)].b) => IsRaw(stack[Len(stack)].w))
 
 ------------------------------------------------------------------------------
 (* PART (c): named laws as terms                                                              *)
@@ -394,7 +410,7 @@ UnitOf(c, name, k) ==
     CASE name \in {"T", "T0", "Tbase", "Tamp", "Ea_over_R", "dH_over_R", "ref"} -> "K"
       [] name \in {"X", "Y", "conc0", "c0"} -> "M"
       [] name \in {"k", "A", "k0"} -> IF c \in {"ArrheniusParam", "ArrheniusFromK"} THEN "1/s" ELSE ConcPow(k)
-      [] name = "kB_h_times_exp_dS_R" -> IF k = 1 THEN "1/s/K" ELSE IF k = 2 THEN "1/M/s/K" ELSE "1/M**2/s/K"
+      [] name = "kB_h_times_exp_dS_R" -> "1/s/K"     \* kB/h * exp(dS/R); the standard state supplies M^(1-order)
       [] name \in {"Ea", "dH"} -> "J/mol"
       [] name = "dS" -> "J/K/mol"
       [] name = "R" -> "J/K/mol"
@@ -426,7 +442,7 @@ ChooseLaw(c, k, p) ==
 ChooseParams(ps) ==
     /\ part = "laws" /\ stage = "pset"
     /\ ps.ngiven >= Len(LawArgs(cfg.cls, cfg.order)) - Cardinality(DOMAIN LawDefaults(cfg.cls))
-    /\ (PatternArgsAbsent(cfg.pattern) => ps.ngiven = Len(LawArgs(cfg.cls, cfg.order)))
+    /\ (PatternArgsAbsent(cfg.pattern) => ps.ngiven >= Len(LawArgs(cfg.cls, cfg.order)))
     /\ cfg' = [cls |-> cfg.cls, order |-> cfg.order, pattern |-> cfg.pattern, pset |-> ps]
     /\ stage' = "temp" /\ UNCHANGED <<part, stack, out>>
 
@@ -508,8 +524,10 @@ CaseRec ==
     ELSE IF part = "algebra" THEN
         [ in  |-> [part |-> "algebra", tree |-> stack[1].w, envs |-> Envs],
           cls |-> AlgClass,
-          exp |-> [vals |-> [e \in 1..EnvCount |-> ResultView(out[e])], term |-> ToTerm(stack[1].w),
-                   built |-> stack[1].b, rtol |-> "1e-11"] ]
+          \* the term is exported only where a value is not an exact rational (eval_term needs it)
+          exp |-> [vals |-> [e \in 1..EnvCount |-> ResultView(out[e])],
+                   term |-> IF \E e \in 1..EnvCount : out[e].st # "q" THEN ToTerm(stack[1].w) ELSE TC(0),
+                   rtol |-> "1e-11"] ]
     ELSE
         LET ts == LawValueTerms
             br == UsedBrackets(ts)
